@@ -1,4 +1,4 @@
-import RockitModel.Model.Sample
+import RockitModel.Model.Initial
 /-!
 Line-protocol driver: reads an OCP description, a decision point and `run …` requests from
 stdin, evaluates the model over `Rat`, prints canonical answers.
@@ -103,6 +103,7 @@ structure B where
   P : Array Rat := #[]
   Pc : Array (Array Rat) := #[]
   Pcp : Array (Array Rat) := #[]
+  gs : Guesses Rat := {}
 
 def setAt {β : Type} (a : Array β) (i : Nat) (v : β) (dflt : β) : Array β :=
   let a := if a.size ≤ i then a ++ Array.replicate (i + 1 - a.size) dflt else a
@@ -258,6 +259,39 @@ def stepLine (b : B) (line : String) : Except String (B × List String) := do
   | "P" :: r => return ({ b with P := (← parseRats r) }, [])
   | "Pc" :: k :: r => return ({ b with Pc := setAt b.Pc k.toNat! (← parseRats r) #[] }, [])
   | "Pcp" :: k :: r => return ({ b with Pcp := setAt b.Pcp k.toNat! (← parseRats r) #[] }, [])
+  | "g" :: kind :: i :: form :: rest =>
+      let i := i.toNat!
+      let g : Guess Rat ← (match form with
+        | "const" => do let r ← parseRats rest; pure (Guess.const r[0]!)
+        | "cols" => do let r ← parseRats rest; pure (Guess.cols r.toList)
+        | "expr" => do let e ← parseExprAll rest; pure (Guess.expr e)
+        | _ => throw "bad guess form")
+      let gs := b.gs
+      let gs ← (match kind with
+        | "x" => pure { gs with x := gs.x ++ [(i, g)] } | "u" => pure { gs with u := gs.u ++ [(i, g)] }
+        | "z" => pure { gs with z := gs.z ++ [(i, g)] } | "v" => pure { gs with v := gs.v ++ [(i, g)] }
+        | "vc" => pure { gs with vc := gs.vc ++ [(i, g)] } | "vcp" => pure { gs with vcp := gs.vcp ++ [(i, g)] }
+        | _ => throw "bad guess kind")
+      return ({ b with gs := gs }, [])
+  | ["run", "start", nu, nv, nvc, nvcp] =>
+      let c ← b.build
+      let gs := b.gs
+      let nu := nu.toNat!; let nv := nv.toNat!; let nvc := nvc.toNat!; let nvcp := nvcp.toNat!
+      let rng := fun (n : Nat) => List.range n
+      let out : List String :=
+        (rng (c.N+1)).map (fun k => s!"X {k} {showRats ((rng c.o.nx).map (fun i => c.startNode gs.x i k))}") ++
+        (rng c.N).map (fun k => s!"U {k} {showRats ((rng nu).map (fun i => c.startInterval gs.u i k))}") ++
+        [s!"V {showRats ((rng nv).map (fun i => c.guessVal (guessOf gs.v i) 0 c.pt.t0))}"] ++
+        (rng c.N).map (fun k => s!"Vc {k} {showRats ((rng nvc).map (fun i => c.startInterval gs.vc i k))}") ++
+        (rng (c.N+1)).map (fun k => s!"Vcp {k} {showRats ((rng nvcp).map (fun i => c.startNode gs.vcp i k))}") ++
+        ((rng c.N).flatMap fun k => (rng c.M).map fun l =>
+            s!"Xi {k*c.M+l} {showRats ((rng c.o.nx).map (fun i => c.startIntg gs.x i k l))}") ++
+        ((rng c.N).flatMap fun k => (rng c.M).flatMap fun l => (rng c.d).map fun j =>
+            s!"Xc {k*c.M+l} {j} {showRats ((rng c.o.nx).map (fun i => c.startRoot gs.x i k l j))}") ++
+        ((rng c.N).flatMap fun k => (rng c.M).flatMap fun l => (rng c.d).map fun j =>
+            s!"Zc {k*c.M+l} {j} {showRats ((rng c.o.nz).map (fun i => c.startRoot gs.z i k l j))}") ++
+        [s!"t0l {showRats ((rng (c.N+1)).map c.startT0local)}", s!"Tl {showRats ((rng c.N).map c.startTlocal)}", "end"]
+      return (b, out)
   | "run" :: what => return (b, ← runCmd b what)
   | _ => throw s!"bad line: {line}"
 
